@@ -2,6 +2,7 @@ package props
 
 import (
 	"crypto/md5"
+	crand "crypto/rand"
 	"crypto/sha1"
 	"crypto/sha256"
 	"encoding/base64"
@@ -411,6 +412,188 @@ func c06Stream(c *sim.Case) {
 	c.Class("attack:stream-continuity")
 }
 
+// entropyStream replaces crypto/rand.Reader while armed: byte i of the stream is byte i of a SHA-256 counter-mode
+// expansion of the drawn seed, unless overridden. Everything read is therefore owned by the harness.
+type entropyStream struct {
+	mu       sync.Mutex
+	seed     [32]byte
+	over     map[int]byte
+	pos      int
+	fallback interface{ Read([]byte) (int, error) }
+	armed    bool
+}
+
+func (e *entropyStream) at(i int) byte {
+	if b, ok := e.over[i]; ok {
+		return b
+	}
+	var blk [40]byte
+	copy(blk[:], e.seed[:])
+	n := i / 32
+	for k := 0; k < 8; k++ {
+		blk[32+k] = byte(n >> (8 * k))
+	}
+	h := sha256.Sum256(blk[:])
+	return h[i%32]
+}
+
+func (e *entropyStream) Read(b []byte) (int, error) {
+	e.mu.Lock()
+	defer e.mu.Unlock()
+	if !e.armed {
+		return e.fallback.Read(b)
+	}
+	for i := range b {
+		b[i] = e.at(e.pos)
+		e.pos++
+	}
+	return len(b), nil
+}
+
+// c06Entropy: the harness owns the entropy. For one stream it finds, byte by byte, which stream bytes each value of
+// two successive logins depends on, then re-draws every byte that no disclosed value depends on: the disclosed values
+// stay, and an identifier that stays too is determined by what was disclosed.
+func c06Entropy(c *sim.Case) {
+	es := &entropyStream{fallback: crand.Reader, over: map[int]byte{}}
+	for i := range es.seed {
+		es.seed[i] = byte(sim.Pick(c, "seed", 256))
+	}
+	mask := byte(1 + sim.Pick(c, "flip-mask", 255))
+	old := crand.Reader
+	crand.Reader = es
+	defer func() { crand.Reader = old }()
+	type obs struct {
+		v    [8]string // id, state, nonce, challenge of login 0 and of login 1
+		used int
+	}
+	names := [8]string{"session-id", "state", "nonce", "challenge", "later-session-id", "later-state", "later-nonce", "later-challenge"}
+	run := func(over map[int]byte) obs {
+		w := sim.NewWorld(c, sim.WorldOpts{ViaServer: true})
+		defer w.Close()
+		es.mu.Lock()
+		es.over, es.pos, es.armed = over, 0, true
+		es.mu.Unlock()
+		a := c06Login(w)
+		b := c06Login(w)
+		es.mu.Lock()
+		es.armed = false
+		used := es.pos
+		es.mu.Unlock()
+		return obs{[8]string{a.id, a.state, a.nonce, a.challenge, b.id, b.state, b.nonce, b.challenge}, used}
+	}
+	base := run(nil)
+	again := run(nil)
+	if base.v[0] == "" || base.v[1] == "" || base.v[2] == "" {
+		c.Violation("no-identifiers", "login redirect without identifiers")
+	}
+	otherSource := [8]bool{}
+	for k := range names {
+		otherSource[k] = base.v[k] != again.v[k]
+	}
+	if base.used == 0 {
+		c.Logf("no byte read from crypto/rand.Reader during two logins: nothing to judge here")
+		c.Class("entropy:reader-unused")
+		c.FP("entropy", "unused")
+		return
+	}
+	if base.used > 2048 {
+		c.Logf("%d bytes read during two logins: too many to scan byte by byte", base.used)
+		c.Class("entropy:not-scanned")
+		c.FP("entropy", "big")
+		return
+	}
+	infl := [8]map[int]bool{}
+	for k := range infl {
+		infl[k] = map[int]bool{}
+	}
+	for i := 0; i < base.used; i++ {
+		o := run(map[int]byte{i: es.at(i) ^ mask})
+		for k := range names {
+			if o.v[k] != base.v[k] {
+				infl[k][i] = true
+			}
+		}
+	}
+	c.Logf("%d stream bytes read; bytes that change session-id/state/nonce/challenge: %d/%d/%d/%d, later login: %d/%d/%d/%d", base.used,
+		len(infl[0]), len(infl[1]), len(infl[2]), len(infl[3]), len(infl[4]), len(infl[5]), len(infl[6]), len(infl[7]))
+	// identifiers the statement protects, each with what is disclosed to its attacker
+	type target struct {
+		k   int
+		pub []int
+	}
+	targets := []target{
+		{0, []int{1, 2, 3, 4, 5, 6, 7}}, // a session id: everything else, including another session's id
+		{4, []int{0, 1, 2, 3, 5, 6, 7}},
+		{1, []int{2, 3}}, {2, []int{1, 3}}, // state and nonce: the other URL values of the same login
+		{5, []int{6, 7}}, {6, []int{5, 7}},
+	}
+	for _, tg := range targets {
+		x := names[tg.k]
+		if otherSource[tg.k] {
+			c.Class("entropy:other-source:" + x)
+			continue
+		}
+		pubBytes := map[int]bool{}
+		sameAsAll := true
+		for _, p := range tg.pub {
+			for i := range infl[p] {
+				pubBytes[i] = true
+			}
+			if p/4 == tg.k/4 && !sameSet(infl[p], infl[tg.k]) {
+				sameAsAll = false
+			}
+		}
+		own := 0
+		for i := range infl[tg.k] {
+			if !pubBytes[i] {
+				own++
+			}
+		}
+		if sameAsAll && len(infl[tg.k]) >= 16 {
+			// every value of the login is expanded from one shared seed: not decidable by influence
+			c.Class("entropy:shared-seed:" + x)
+			continue
+		}
+		// re-draw every byte no disclosed value depends on
+		over := map[int]byte{}
+		changed := 0
+		for i := 0; i < base.used; i++ {
+			if !pubBytes[i] {
+				over[i] = es.at(i) ^ mask
+				changed++
+			}
+		}
+		o := run(over)
+		pubSame := true
+		for _, p := range tg.pub {
+			if o.v[p] != base.v[p] {
+				pubSame = false
+			}
+		}
+		if pubSame && changed >= 16 && o.v[tg.k] == base.v[tg.k] {
+			c.Violation("entropy:determined-by-disclosed:"+x, "%s stays %q when all %d stream bytes that no disclosed value depends on are re-drawn (disclosed values unchanged): it is a function of what travels outside the cookie", x, short(base.v[tg.k], 12), changed)
+		}
+		if own < 8 {
+			c.Violation("entropy:own-entropy-below-64-bits:"+x, "only %d stream bytes change %s without changing a disclosed value (it depends on %d bytes in all)", own, x, len(infl[tg.k]))
+		}
+	}
+	c.NonTrivial()
+	c.FP("entropy", es.seed, mask)
+	c.Class("attack:entropy-ownership")
+}
+
+func sameSet(a, b map[int]bool) bool {
+	if len(a) != len(b) {
+		return false
+	}
+	for k := range a {
+		if !b[k] {
+			return false
+		}
+	}
+	return true
+}
+
 func TestC06(t *testing.T) {
 	r := sim.NewRun(t, "C06")
 	defer r.Finish()
@@ -419,7 +602,7 @@ func TestC06(t *testing.T) {
 		"the predictors are sound (a hit is a demonstrated prediction) but incomplete: a weak construction outside the family passes",
 		"the static clause of the statement (every code path that can produce an identifier) is approximated by attacking identifiers from the shipped entry point",
 	}
-	parts := map[string]func(*sim.Case){"window": c06Window, "derivations": c06Derivations, "birthday": c06Birthday(300000), "birthday-thorough": c06Birthday(3000000), "stream": c06Stream}
+	parts := map[string]func(*sim.Case){"window": c06Window, "derivations": c06Derivations, "birthday": c06Birthday(300000), "birthday-thorough": c06Birthday(3000000), "stream": c06Stream, "entropy": c06Entropy}
 	if r.Replay != "" {
 		r.ReplayFile(parts)
 		return
@@ -428,6 +611,7 @@ func TestC06(t *testing.T) {
 	r.Loop("window", r.N(12, 60), c06Window)
 	r.Loop("derivations", r.N(20, 200), c06Derivations)
 	r.Loop("stream", r.N(2, 10), c06Stream)
+	r.Loop("entropy", r.N(3, 30), c06Entropy)
 	if r.Thorough() {
 		r.Loop("birthday-thorough", 1, parts["birthday-thorough"])
 	} else {
